@@ -147,7 +147,7 @@ package node
 //@   assigns open, failed, nodeWrites, writesAfterFail, fieldWrites, fieldPostChecks, nonNavChecks, sel.Constraints.compiled, *r, hnd.Val
 //@   check (!proceed || constraintErr != nil) ==> fieldWrites == old(fieldWrites) && result == constraintErr
 //@   check proceed && constraintErr == nil ==> fieldWrites == old(fieldWrites) + 1
-//@   ensures open == old(open) && ((failed && !old(failed)) ==> result != nil) && (!old(failed) ==> writesAfterFail == old(writesAfterFail))
+//@   ensures stepOK(result)
 //@   ensures nodeWrites <= old(nodeWrites) + 1
 
 // ---- C07: query parameters ---------------------------------------------------------------------------
@@ -384,7 +384,7 @@ package node
 //@   check (!proceed || constraintErr != nil) ==> result == constraintErr && fieldPostChecks == old(fieldPostChecks) && fieldWrites == old(fieldWrites)
 //@   check result == nil && proceed && constraintErr == nil ==> fieldPostChecks == old(fieldPostChecks) + 1
 //@   ensures fieldWrites == old(fieldWrites) && nodeWrites == old(nodeWrites)
-//@   ensures open == old(open) && ((failed && !old(failed)) ==> result != nil) && writesAfterFail == old(writesAfterFail)
+//@   ensures stepOK(result) && writesAfterFail == old(writesAfterFail)
 
 // ---- C13/C08: request paths ---------------------------------------------------------------------------------
 // no path text can crash the parser; every segment it returns names a schema node, and only list segments carry keys
@@ -483,11 +483,11 @@ package node
 //@   property C12
 //@   requires wfSel(sel) && (bubble ==> wfSelChain(sel))
 //@   assigns open, failed
-//@   loop 1 invariant r.Selection != nil && r.Selection.Node != nil && anc(r.Selection, sel) && (bubble ==> wfSelChain(r.Selection)) && (bubble || r.Selection == sel)
+//@   loop 1 invariant r.Selection != nil && preexisting(r.Selection) && r.Selection.Node != nil && anc(r.Selection, sel) && (bubble ==> wfSelChain(r.Selection)) && (bubble || r.Selection == sel)
 //@   loop 1 invariant open == old(open) + chain(sel, bubble) - chain(r.Selection, bubble)
 //@   loop 1 invariant failed == old(failed)
 //@   loop 1 decreases selLen(r.Selection)
-//@   loop 2 invariant anc(failedAt, s) && (bubble ==> wfSelChain(s)) && failedAt != nil && (bubble || s == failedAt)
+//@   loop 2 invariant anc(failedAt, s) && preexisting(s) && preexisting(failedAt) && (bubble ==> wfSelChain(s)) && failedAt != nil && (bubble || s == failedAt)
 //@   loop 2 invariant open == old(open) + chain(s, bubble) - chain(failedAt, bubble)
 //@   loop 2 decreases selLen(s)
 //@   ensures result == nil ==> open == old(open) + chain(sel, bubble) && failed == old(failed)
@@ -498,7 +498,7 @@ package node
 //@   property C12
 //@   requires wfSel(sel) && (bubble ==> wfSelChain(sel))
 //@   assigns open, failed
-//@   loop 1 invariant r.Selection != nil && r.Selection.Node != nil && anc(r.Selection, sel) && (bubble ==> wfSelChain(r.Selection)) && (bubble || r.Selection == sel)
+//@   loop 1 invariant r.Selection != nil && preexisting(r.Selection) && r.Selection.Node != nil && anc(r.Selection, sel) && (bubble ==> wfSelChain(r.Selection)) && (bubble || r.Selection == sel)
 //@   loop 1 invariant open == old(open) - chain(sel, bubble) + chain(r.Selection, bubble)
 //@   loop 1 invariant failed == (old(failed) || firstErr != nil)
 //@   loop 1 decreases selLen(r.Selection)
@@ -510,7 +510,7 @@ package node
 
 // what every step of an edit guarantees to the nodes involved:
 //   the begin/end balance is unchanged, a node error surfaces as an error, nothing is written after a failure
-//@ macro stepOK(err error) bool = open == old(open) && ((failed && !old(failed)) ==> err != nil) && (!old(failed) ==> writesAfterFail == old(writesAfterFail))
+//@ macro stepOK(err error) bool = open == old(open) && ((failed && !old(failed)) ==> err != nil) && (old(failed) ==> failed) && (!old(failed) ==> writesAfterFail == old(writesAfterFail))
 
 // constraint checks do not talk to nodes (trusted abstraction of the registered constraint objects);
 // nonNavChecks counts constraint consultations for requests that are not pure navigation
@@ -549,6 +549,7 @@ package node
 //@   assigns nodeWrites, writesAfterFail, failed, nonNavChecks, sel.Constraints.compiled, r.Path
 //@   ensures stepOK(result1)
 //@   ensures nodeWrites == old(nodeWrites) || (nodeWrites == old(nodeWrites) + 1 && (r.New || r.Delete))
+//@   ensures nodeWrites == old(nodeWrites) ==> writesAfterFail == old(writesAfterFail)
 //@   ensures r.New == old(r.New) && r.Delete == old(r.Delete) && r.Target == old(r.Target)
 //@   ensures r.Target != nil ==> nonNavChecks == old(nonNavChecks)
 //@   ensures result0 != nil ==> result1 == nil && wfS(result0) && result0.parent == sel && result0.Browser == sel.Browser && result0.Constraints == sel.Constraints && !result0.InsideList
@@ -561,6 +562,7 @@ package node
 //@   assigns nodeWrites, writesAfterFail, failed, nonNavChecks, sel.Constraints.compiled, r.StartRow64, r.StartRow, r.Row64, r.Row
 //@   ensures stepOK(result3)
 //@   ensures nodeWrites == old(nodeWrites) || (nodeWrites == old(nodeWrites) + 1 && (r.New || r.Delete))
+//@   ensures nodeWrites == old(nodeWrites) ==> writesAfterFail == old(writesAfterFail)
 //@   ensures r.New == old(r.New) && r.Delete == old(r.Delete) && r.Target == old(r.Target) && r.First == old(r.First)
 //@   ensures r.Target != nil ==> nonNavChecks == old(nonNavChecks)
 //@   ensures result0 != nil ==> result3 == nil && result0.parent == sel && result0.Browser == sel.Browser && result0.Constraints == sel.Constraints && result0.InsideList
@@ -572,8 +574,9 @@ package node
 //@   mode bv
 //@   property C12 C04
 //@   requires wfS(sel) && r != nil && r.Selection != nil && r.Selection.Path != nil && !r.New && !r.Delete
-//@   assigns nodeWrites, writesAfterFail, failed, nonNavChecks, sel.Constraints.compiled, r.StartRow64, r.StartRow, r.Row64, r.Row
-//@   loop 1 invariant stepOK(nil) && nodeWrites == old(nodeWrites) && failed == old(failed)
+//@   assigns nodeWrites, writesAfterFail, failed, nonNavChecks, sel.Constraints.compiled, r.StartRow64, r.StartRow, r.Row64, r.Row, r.First
+//@   loop 1 invariant open == old(open) && writesAfterFail == old(writesAfterFail) && nodeWrites == old(nodeWrites) && failed == old(failed)
+//@   loop 1 invariant !r.New && !r.Delete && r.Selection == old(r.Selection) && r.Selection.Path == old(r.Selection.Path)
 //@   ensures stepOK(result2) && nodeWrites == old(nodeWrites)
 //@   ensures result0 != nil ==> result2 == nil && wfS(result0) && result0.InsideList && fresh(result0)
 
